@@ -262,10 +262,12 @@ func stepInput(i int, p string) map[string]any {
 // stepCreds returns credential name -> secret name.
 func stepCreds(i int, p string) map[string]string {
 	switch p {
+	// Every step calls its credentials "creds" (names are local to a step);
+	// each step's reference points at its own secret with its own data.
 	case "cred":
-		return map[string]string{"cred-" + stepName(i): credSecret}
+		return map[string]string{"creds": fmt.Sprintf("%s-%d", credSecret, i)}
 	case "cred-absent":
-		return map[string]string{"cred-" + stepName(i): credMissing}
+		return map[string]string{"creds": credMissing}
 	}
 	return nil
 }
